@@ -143,10 +143,10 @@ func concOp(kind string, row j.B, who string) bt.Op {
 		return bt.Op{Ev: "ReadRows", T: concTable, Now: j.N64(concNow)}
 	case "gc":
 		return bt.Op{Ev: "GcPass", T: concTable, Now: j.N64(concNow)}
-	case "mrows": // two entries on the same row, the second one invalid: all-or-nothing per entry
+	case "mrows": // two entries on the same row, the first one failing at its second mutation (unknown family): all-or-nothing per entry
 		return bt.Op{Ev: "MutateRows", T: concTable, Now: j.N64(concNow), Entries: []bt.Entry{
-			{K: row, Muts: []bt.Mut{{M: "set", F: j.S("f"), Q: j.S("a"), Ts: 3000, V: j.S(who)}, {M: "set", F: j.S("f"), Q: j.S("b"), Ts: 3000, V: j.S(who)}}},
-			{K: row, Muts: []bt.Mut{{M: "set", F: j.S("f"), Q: j.S("a"), Ts: 4000, V: j.S(who)}, {M: "set", F: j.S("f"), Q: j.S("b"), Ts: 1500, V: j.S(who)}}}}}
+			{K: row, Muts: []bt.Mut{{M: "set", F: j.S("f"), Q: j.S("a"), Ts: 3000, V: j.S(who)}, {M: "set", F: j.S("nofam"), Q: j.S("b"), Ts: 3000, V: j.S(who)}}},
+			{K: row, Muts: []bt.Mut{{M: "set", F: j.S("f"), Q: j.S("b"), Ts: 4000, V: j.S(who)}, {M: "set", F: j.S("f"), Q: j.S("c"), Ts: 1500, V: j.S(who)}}}}}
 	}
 	panic(kind)
 }
@@ -301,13 +301,27 @@ func (c *Ctx) runConc(label string, jobs []concJob) {
 		}
 		ok = append(ok, r)
 	}
-	batch := 12
+	// batches of about 12 runs per TLC process; runs on large tables (validation cost grows with the table) get
+	// smaller batches so that they are validated in parallel
+	weight := func(r *btconc.Run) int {
+		w := 1
+		for _, op := range r.Setup {
+			w += len(op.Entries) / 40
+		}
+		return w
+	}
 	var mu sync.Mutex
 	var rejects []concReject
 	var vw sync.WaitGroup
-	vsem := make(chan struct{}, 10)
-	for lo := 0; lo < len(ok); lo += batch {
-		hi := min(lo+batch, len(ok))
+	vsem := make(chan struct{}, 12)
+	for lo := 0; lo < len(ok); {
+		hi, w := lo, 0
+		for hi < len(ok) && (hi == lo || w+weight(ok[hi]) <= 12) {
+			w += weight(ok[hi])
+			hi++
+		}
+		lo0 := lo
+		lo = hi
 		vw.Add(1)
 		go func(lo, hi int) {
 			defer vw.Done()
@@ -322,7 +336,7 @@ func (c *Ctx) runConc(label string, jobs []concJob) {
 			mu.Lock()
 			rejects = append(rejects, rj...)
 			mu.Unlock()
-		}(lo, hi)
+		}(lo0, hi)
 	}
 	vw.Wait()
 	fmt.Fprintf(os.Stderr, "[%s] validated at %.1fs (%d rejected)\n", label, time.Since(c.Start).Seconds(), len(rejects))
